@@ -25,7 +25,9 @@ EXTENDS Naturals, Sequences, FiniteSets, TLC
 CONSTANTS Hs,         \* handles (strings)
           Wait,       \* handle -> wait yielded by its sleeper (positive)
           Incs,       \* clock increments per iteration
-          MaxFrames, MaxGen
+          MaxFrames, MaxGen,
+          WakeAtDeadline   \* TRUE = as coded and intended (timer >= deadline); FALSE: a sleeper woken only AFTER its deadline
+                           \* (non-vacuity of NoOversleep / WakeOnWorldTime: TLC must report one of them)
 
 VARIABLES cur,        \* handle the loop runs
           st,         \* handle -> "none" (nothing cached) | "new" (instance loaded, never processed) |
@@ -76,7 +78,7 @@ Frame(inc, site, req) ==
            \* p0: start the sleeper of a new instance
            stA == IF st[h] = "new" THEN "ready" ELSE st[h]
            \* coroutine processor
-           due == stA = "sleep" /\ acc[h] + dt >= Wait[h]
+           due == stA = "sleep" /\ (IF WakeAtDeadline THEN acc[h] + dt >= Wait[h] ELSE acc[h] + dt > Wait[h])
            tick == ~early /\ (stA = "ready" \/ due)
            stB == IF early THEN stA ELSE "sleep"
            accB == IF early THEN acc[h] ELSE IF tick THEN 0 ELSE acc[h] + dt
